@@ -111,6 +111,8 @@ def run(ck, F):
     # whatever restriction set they were called with (generated structs call with None): the wrapper obligations of C06, decided here
     from rules import c04 as C04
     from rules import c06 as C06
-    sub = C04._Sub(ck, "R2", lambda key: True, only_rules=("R7",))
+    # ... and a facet is enforced only if the carrier's check decides as the facet says for every value (a bound compared with part
+    # of the value lets the rest through): the decisions of C06 are obligations of this property as well
+    sub = C04._Sub(ck, "R2", lambda key: True)
     C06.run(sub, F)
     T.c07_template_rules(ck, F)
